@@ -173,7 +173,7 @@ def _observe_gaps(case):
 
 def _gaps_features(case):
     genes = case["genes"]
-    feats = [f"padding_{'zero' if case['pad'] == 0 else 'positive'}"]
+    feats = [f"overlap_{'zero' if case['pad'] == 0 else 'positive'}"]
     for one, two in itertools.permutations(genes, 2):
         if one[0] <= two[0] and two[1] <= one[1]:
             feats.append("gene_nested_in_gene")
@@ -320,20 +320,28 @@ def _variants(rng, seq, count):
     return out
 
 
-def _random_loc(rng, length, circ):
-    strand = rng.choice([1, -1])
-    kind = rng.random()
-    if circ and kind < 0.2:
-        start = rng.randrange(length - 8, length - 1)
-        end = rng.randrange(2, 9)
-        parts = [[start, length], [0, end]]
-    elif kind < 0.35:
-        cuts = sorted(rng.sample(range(0, length + 1), 4))
-        parts = [[cuts[0], cuts[1]], [cuts[2], cuts[3]]]
-    else:
-        start = rng.randrange(0, length - 3)
-        end = min(length, start + rng.randrange(3, 16))
-        parts = [[start, end]]
+def _random_loc(rng, length, circ, shortest):
+    """ a gene of at least `shortest` bases from first to last base (genes are assumed longer than twice the allowed
+        overlap: with shorter ones the padded gaps on either side of a gene overlap each other) """
+    while True:
+        strand = rng.choice([1, -1])
+        kind = rng.random()
+        if circ and kind < 0.2:
+            start = rng.randrange(length - 8, length - 1)
+            end = rng.randrange(2, 9)
+            parts = [[start, length], [0, end]]
+            extent = length - start + end
+        elif kind < 0.35:
+            cuts = sorted(rng.sample(range(0, length + 1), 4))
+            parts = [[cuts[0], cuts[1]], [cuts[2], cuts[3]]]
+            extent = cuts[3] - cuts[0]
+        else:
+            start = rng.randrange(0, length - 3)
+            end = min(length, start + rng.randrange(3, 16))
+            parts = [[start, end]]
+            extent = end - start
+        if extent >= shortest:
+            break
     if strand == -1:
         parts = parts[::-1]
     return {"parts": parts, "strand": strand}
@@ -367,9 +375,10 @@ def _random_all_case(rng):
     length = rng.choice([24, 27, 30, 33, 36, 41])
     circ = rng.random() < 0.6
     rec = _planted_record(rng, length) if rng.random() < 0.8 else codes(_random_string(rng, length))
+    overlap = rng.choice([0, 1, 2, 3, 5])
     genes = []
     for _ in range(rng.choice([0, 0, 1, 1, 2, 2, 3])):
-        loc = _random_loc(rng, length, circ)
+        loc = _random_loc(rng, length, circ, 2 * overlap + 1)
         if loc not in genes:
             genes.append(loc)
     kind = rng.random()
@@ -382,7 +391,7 @@ def _random_all_case(rng):
         start = rng.randrange(length // 2, length - 2)
         area = {"parts": [[start, length], [0, rng.randrange(3, min(start, length // 2) + 1)]], "strand": 1}
     return {"op": "all", "rec": rec, "circ": circ, "genes": genes, "area": area,
-            "min": rng.choice([6, 9, 12]), "ovl": rng.choice([0, 1, 2, 3, 5]), "sampled": True}
+            "min": rng.choice([6, 9, 12]), "ovl": overlap, "sampled": True}
 
 
 def _gaps_cases(rng, quick):
@@ -409,6 +418,19 @@ def _gaps_cases(rng, quick):
                       "min": rng.choice([0, 3, 6]), "pad": rng.choice([0, 1, 2, 3, 5]), "genes": genes,
                       "sampled": True})
     return cases
+
+
+def _token_count(seq):
+    """ fewest tokens of CODON_TOKENS that spell seq (a large number if none do) """
+    best = {0: 0}
+    for pos in range(len(seq)):
+        if pos not in best:
+            continue
+        for token in CODON_TOKENS:
+            if seq[pos:pos + len(token)] == token:
+                nxt = pos + len(token)
+                best[nxt] = min(best.get(nxt, 99), best[pos] + 1)
+    return best.get(len(seq), 99)
 
 
 def _load_strings(run):
@@ -453,7 +475,10 @@ def _split_scan_failures(ctx, cases_by_id, observed):
 
 def run(ctx):
     rng = random.Random(ctx.seed)
-    max_bases, max_codons = (8, 5) if ctx.quick else (10, 6)
+    # replayed exhaustively in both tiers: <= 8 bases / <= 5 codon tokens; the thorough tier model-checks <= 10 / <= 6
+    # and replays a seeded sample of the additional strings
+    rep_bases, rep_codons = 8, 5
+    max_bases, max_codons = (rep_bases, rep_codons) if ctx.quick else (10, 6)
     strings = {}
     mains = (("MC_OrfsBases", BASE_TOKENS, max_bases), ("MC_OrfsCodons", CODON_TOKENS, max_codons))
     negs = (("MC_OrfsBases", BASE_TOKENS, 9, "LastStartAgrees"), ("MC_OrfsBases", BASE_TOKENS, 7, "NoOrfAnywhere"),
@@ -485,10 +510,21 @@ def run(ctx):
 
     cases = []
     rich_strings = []
+    beyond = []
     for seq, norfs in strings:
+        exhaustive = (len(seq) <= rep_bases and all(b in (0, 2, 3) for b in seq)) or _token_count(seq) <= rep_codons
+        if not exhaustive:
+            beyond.append((seq, norfs))
+            continue
         cases.append({"op": "scan", "s": seq, "calls": _calls(len(seq), norfs > 0), "rich": norfs > 0})
         if norfs > 0:
             rich_strings.append(seq)
+    rich_beyond = [seq for seq, norfs in beyond if norfs > 0]
+    for seq in rng.sample(rich_beyond, min(len(rich_beyond), 60000)):
+        cases.append({"op": "scan", "s": seq, "calls": _calls(len(seq), True), "rich": True, "sampled": True})
+    poor_beyond = [seq for seq, norfs in beyond if norfs == 0]
+    for seq in rng.sample(poor_beyond, min(len(poor_beyond), 20000)):
+        cases.append({"op": "scan", "s": seq, "calls": _calls(len(seq), False), "sampled": True})
     n_variants = 1 if ctx.quick else 2
     for seq in rich_strings:
         for new in _variants(rng, seq, n_variants):
@@ -539,7 +575,8 @@ def run(ctx):
     ctx.exhaustive = True
     ctx.rule = (f"TLC enumerates every string over A/T/G of length 3..{max_bases} (all start/stop codons are over this "
                 f"alphabet) and every concatenation of 3..{max_codons} tokens from ATG TTG TAA TGA GAC A (several ORFs per "
-                "string), and tells which contain an ORF; each is scanned on both strands (ORF-containing strings: 11 "
+                f"string), and tells which contain an ORF; every one of up to {rep_bases} bases / {rep_codons} tokens (and a "
+                "seeded sample of the longer ones) is scanned on both strands (ORF-containing strings: 11 "
                 "placements x minimum lengths, windows inside / touching / crossing the origin / filling the record, with "
                 "and without record length; ORF-free strings: 3 placements), plus seeded variants with C/N/R/Y/lower case "
                 "and random longer strings; find_intergenic_areas on every layout of <= 2 genes on 8 bases plus random "
@@ -547,6 +584,7 @@ def run(ctx):
                 "origin-spanning, whole record / simple area / origin-crossing area); non-trivial = the string contains an "
                 "ORF (scan) or the search returned a feature (find_all_orfs)")
     ctx.notes["strings_enumerated"] = len(strings)
+    ctx.notes["strings_replayed_exhaustively"] = len(strings) - len(beyond)
     ctx.notes["strings_with_orf"] = len(rich_strings)
     ctx.notes["scan_calls"] = sum(len(c["calls"]) for c in cases if c["op"] == "scan")
     ctx.notes["gaps_cases"] = sum(1 for c in cases if c["op"] == "gaps")
@@ -557,6 +595,8 @@ def run(ctx):
         "gap search: soundness only (inside the area, overlap with every existing gene's bases <= max_overlap, each a "
         "start-to-stop stretch with matching translation); completeness is demanded only when there are no genes",
         "windows longer than the record and fuzzy positions are outside the model",
+        "find_all_orfs: existing genes are longer than twice the allowed overlap (real callers: 10 bases against genes of "
+        "at least 60); with shorter genes the padded gaps on both sides of a gene overlap each other",
         "translation table: NCBI 1/11 amino-acid assignments; ambiguous codons read X unless every reading agrees",
     ]
 
